@@ -29,7 +29,9 @@ def parse_header(path):
 def run_patch(pid, patch, keep=False):
     h = parse_header(patch)
     scratch = tempfile.mkdtemp(prefix="qlmut.")
-    res = {"patch": os.path.relpath(patch, VERIF), "kind": h.get("kind", "break"), "expect": h.get("expect", ""), "why": h.get("why", "")}
+    # everything under equivalents/ is a behaviour-preserving refactoring whether or not the file carries a header
+    in_eq = os.path.dirname(os.path.abspath(patch)) == os.path.join(VERIF, "equivalents")
+    res = {"patch": os.path.relpath(patch, VERIF), "kind": "equivalent" if in_eq else h.get("kind", "break"), "expect": h.get("expect", ""), "why": h.get("why", "")}
     try:
         tree = os.path.join(scratch, "repo")
         subprocess.run(["rsync", "-a", "--exclude", "_build", "--exclude", ".git", REPO + "/", tree + "/"], check=True)
